@@ -1,11 +1,14 @@
 //! C10 "ABI version tolerance": all ordered pairs (caller version i, implementation version j) on
 //! every history path of the generated tree x all enumerated values x the methods of `Iface`,
 //! executed on the real savefile-abi code and compared with the reference model of `model10`.
+//! Methods with a callback (`with_cb`, `with_mut_cb`) check the NESTED connection too: what the
+//! caller-side closure observes == up_i(down_min(p)) for the value p the implementation handed
+//! to it, and what the implementation gets back == up_j(down_min(r)) for the closure's answer r.
 use crate::model10 as model;
 use std::collections::{BTreeMap, HashSet};
 use std::io::Write;
 use vabi10fam::spec::{self, NVal, Node, Scalar};
-use vabi10fam::support::{take_log, CallerShim, Ret};
+use vabi10fam::support::{take_cb_log, take_log, CallerShim, Ret};
 use vcommon::serde_json::{json, Map, Value};
 use vcommon::{Run, Tier, Violation};
 
@@ -88,7 +91,7 @@ pub fn pair_cases(ctx: &Ctx, c: usize) -> Vec<Case> {
     let vals = model::values(cn, thorough);
     let mut out = vec![Case { method: "connect".into(), args: vec![], a: 0 }];
     for x in &vals {
-        for m in ["echo", "by_ref", "observe"] {
+        for m in ["echo", "by_ref", "observe", "with_cb", "with_mut_cb"] {
             out.push(Case { method: m.into(), args: vec![x.clone()], a: 0 });
         }
     }
@@ -180,7 +183,7 @@ fn tags(c: &Node, j: &Node, case: &Case) -> BTreeMap<String, String> {
     let between: Vec<String> = longer[1 + m as usize..].chars().map(|x| x.to_string()).collect();
     let variants: Vec<Option<String>> = if case.args.is_empty() { vec![None] } else { case.args.iter().map(|x| x.variant.clone()).collect() };
     let differs = |n: &Node| variants.iter().any(|v| model::wire_fields(n, v.as_deref(), n.depth) != model::wire_fields(n, v.as_deref(), m));
-    let returns_t = case.method == "echo" || case.method == "vecs";
+    let returns_t = case.method == "echo" || case.method == "vecs" || case.method == "with_cb";
     vcommon::tags(&[
         ("base", c.base.to_string()),
         ("direction", direction(c, j).to_string()),
@@ -290,9 +293,17 @@ pub fn check_case(ctx: &Ctx, c: usize, j: usize, shim: Option<&dyn CallerShim>, 
         return out;
     };
     let _ = take_log();
+    let _ = take_cb_log();
     st.add("transitions", 1);
     let res = vcommon::guarded(|| shim.call(&case.method, &case.args, case.a));
     let log = take_log();
+    let cblog = take_cb_log();
+    if let Err(p) = &res {
+        if p.contains("PoisonError") {
+            out.machinery = Some(format!("a global lock of savefile-abi is poisoned in this worker (earlier panic inside connection creation): {}", p));
+            return out;
+        }
+    }
 
     if spec::is_scalar_method(&case.method) {
         let exists = spec::methods(jn.depth).contains(&case.method);
@@ -373,8 +384,78 @@ pub fn check_case(ctx: &Ctx, c: usize, j: usize, shim: Option<&dyn CallerShim>, 
             format!("sent {} ; the implementation observed {} ; model up_{}(down_{}(x)) = {}", render_vals(&case.args), render_vals(&entry.observed), jn.depth, m, render_vals(&expected_obs)),
         );
     }
+    // methods with a callback: the nested connection (implementation -> caller's closure) must
+    // speak the negotiated version as well
+    let is_cb = case.method == "with_cb" || case.method == "with_mut_cb";
+    if is_cb {
+        st.add("evaluations", 2);
+        st.add("transitions", 1);
+        let passed = entry.cb_passed.clone().unwrap_or_default();
+        if passed != model::bump(jn, &entry.observed[0]) {
+            out.machinery = Some(format!("recording implementation {} handed {} to the callback, the model of it says {}", jn.id, passed.render(), model::bump(jn, &entry.observed[0]).render()));
+            return out;
+        }
+        let want_cb = match model::transmit(jn, cn, m, &passed) {
+            Ok(v) => v,
+            Err(e) => {
+                out.machinery = Some(format!("callback argument not representable: {}", e));
+                return out;
+            }
+        };
+        let panic_note = match &res {
+            Err(p) => format!(" ; the call panicked: {}", p),
+            Ok(_) => String::new(),
+        };
+        if cblog.len() != 1 {
+            st.add("oc.callback_not_invoked_properly", 1);
+            fail(&mut out, "callback_argument_observed", &[("outcome", if res.is_err() { "caller_panic" } else { "not_invoked" }.to_string()), ("impl_invoked", "yes".into())],
+                format!("the implementation handed {} to the caller's closure, which was invoked {} times instead of once{}", passed.render(), cblog.len(), panic_note));
+            return out;
+        }
+        let (cb_seen, cb_answer) = &cblog[0];
+        let cb_arg_ok = *cb_seen == want_cb;
+        if !cb_arg_ok {
+            fail(&mut out, "callback_argument_observed", &[("outcome", "value_mismatch".into()), ("impl_invoked", "yes".into())],
+                format!("the implementation handed {} to the caller's closure ; the closure observed {} ; model up_{}(down_{}(p)) = {}", passed.render(), cb_seen.render(), cn.depth, m, want_cb.render()));
+        }
+        let mut cb_ret_ok = true;
+        if case.method == "with_cb" {
+            let answer = cb_answer.clone().unwrap_or_default();
+            if answer != model::bump(cn, cb_seen) {
+                out.machinery = Some(format!("the caller-side closure answered {}, the model of it says {}", answer.render(), model::bump(cn, cb_seen).render()));
+                return out;
+            }
+            let want_got = match model::transmit(cn, jn, m, &answer) {
+                Ok(v) => v,
+                Err(e) => {
+                    out.machinery = Some(format!("callback answer not representable: {}", e));
+                    return out;
+                }
+            };
+            if !entry.finished {
+                cb_ret_ok = false;
+                fail(&mut out, "callback_return_observed", &[("outcome", "caller_panic".into()), ("impl_invoked", "yes".into())],
+                    format!("the closure answered {} but the implementation never got it{}", answer.render(), panic_note));
+            } else if entry.cb_got.as_ref() != Some(&want_got) {
+                cb_ret_ok = false;
+                fail(&mut out, "callback_return_observed", &[("outcome", "value_mismatch".into()), ("impl_invoked", "yes".into())],
+                    format!("the caller's closure answered {} ; the implementation got {} ; model up_{}(down_{}(r)) = {}", answer.render(), entry.cb_got.as_ref().map(|x| x.render()).unwrap_or_default(), jn.depth, m, want_got.render()));
+            }
+        } else if !entry.finished {
+            cb_ret_ok = false;
+            fail(&mut out, "callback_return_observed", &[("outcome", "caller_panic".into()), ("impl_invoked", "yes".into())], format!("the implementation never came back from the callback{}", panic_note));
+        }
+        st.add(if cb_arg_ok && cb_ret_ok { "oc.callback_values_as_modelled" } else { "oc.callback_values_differ" }, 1);
+        if cross && want_cb.f.len() != passed.f.len() {
+            st.add("rule.callback_argument_crossed_versions_with_field_set_change", 1);
+        }
+        if !entry.finished {
+            return out;
+        }
+    }
     // the recording implementation is our own code: it must have returned what the model says it does
     let impl_ret_model = match case.method.as_str() {
+        "with_cb" => Ret::One(entry.cb_got.clone().unwrap_or_default()),
         "echo" => Ret::One(model::bump(jn, &entry.observed[0])),
         "by_ref" => Ret::U(spec::checksum(&entry.observed[0])),
         "vecs" => Ret::Many(entry.observed.iter().map(|x| model::bump(jn, x)).collect()),
@@ -733,7 +814,7 @@ pub fn parent(run: &mut Run) -> (Map<String, Value>, Vec<String>) {
     let sub = |prefix: &str| -> Map<String, Value> { stats.0.iter().filter(|(k, _)| k.starts_with(prefix)).map(|(k, v)| (k[prefix.len()..].to_string(), json!(v))).collect() };
     let oc = sub("oc.");
     // vacuity guards
-    if g("pairs_cross_version") < 2 || g("nontrivial") < 2 || oc.len() < 2 || g("rule.receiver_filled_default_or_ctor_value") == 0 || g("rule.sender_field_dropped") == 0 || g("oc.missing_method_panicked") + g("oc.missing_method_unclear_panic") + g("oc.missing_method_returned") == 0 {
+    if g("pairs_cross_version") < 2 || g("nontrivial") < 2 || oc.len() < 2 || g("rule.receiver_filled_default_or_ctor_value") == 0 || g("rule.sender_field_dropped") == 0 || g("oc.missing_method_panicked") + g("oc.missing_method_unclear_panic") + g("oc.missing_method_returned") == 0 || g("oc.callback_values_as_modelled") + g("oc.callback_values_differ") == 0 || g("rule.callback_argument_crossed_versions_with_field_set_change") == 0 {
         vcommon::machinery_error(&format!("vacuous exploration: {:?}", stats.0));
     }
     let mut cov = Map::new();
@@ -752,7 +833,7 @@ pub fn parent(run: &mut Run) -> (Map<String, Value>, Vec<String>) {
     cov.insert("distinct_nontrivial".into(), json!(g("nontrivial")));
     cov.insert(
         "rule".into(),
-        json!("history tree: 3 base definitions x all sequences of ABI-usable edits up to the depth bound; node at depth n = definition of T and of trait Iface at version n. For every ordered pair (caller node, implementation node) on a common path, incl. i == j: one connection (from_boxed_trait_for_test) checked for negotiated version and method mapping, then every enumerated value of the caller's T x {echo, by_ref, observe}, every vector case x vecs, every plain method (legacy / added_k) x 3 arguments; plus breaking re-declarations of the version-0 interface in both roles. A state is a distinct (caller, implementation, method, arguments); it is non-trivial when caller and implementation versions differ (i != j), and every breaking variant is non-trivial."),
+        json!("history tree: 3 base definitions x all sequences of ABI-usable edits up to the depth bound; node at depth n = definition of T and of trait Iface at version n. For every ordered pair (caller node, implementation node) on a common path, incl. i == j: one connection (from_boxed_trait_for_test) checked for negotiated version and method mapping, then every enumerated value of the caller's T x {echo, by_ref, observe, with_cb (closure Fn(T) -> T), with_mut_cb (closure FnMut(T))}, every vector case x vecs, every plain method (legacy / added_k) x 3 arguments; plus breaking re-declarations of the version-0 interface in both roles. A state is a distinct (caller, implementation, method, arguments); it is non-trivial when caller and implementation versions differ (i != j), and every breaking variant is non-trivial."),
     );
     cov.insert("history_depth_bound".into(), json!(ctx.max_depth));
     cov.insert("nodes".into(), json!(in_tier.len()));
